@@ -1,11 +1,11 @@
 import Model.Json
-import Generated.GoCode
+import Generated.GoObject
 import Proofs.Gen17
 
 /-
   The tie by translation for C17: the typed accessors of object/object.go (GetAny, GetString,
   GetObject, GetList, GetTime, GetURL, GetMediaType and the instantiations of getPrimitive they
-  use) are translated from the source on every run (`Generated/GoCode.lean`, namespace
+  use) are translated from the source on every run (`Generated/GoObject.lean`, namespace
   `GenObject`); the theorems below say the generated code computes what the hand-written model
   (`Model/Json.lean`, namespace `Obj`) computes, so the C17 classification theorems hold of the
   code as translated.  (`GetNumber` and `GetMarkup` are outside the translated subset: floating
